@@ -163,7 +163,12 @@ static inline void table_ranges(u32 tag, const Bytes &t, std::vector<Range> &out
     else if (tag == mktag("Glat")) { out.push_back({0, std::min<size_t>(t.size(), 512), "glat-first-runs"}); }
     else if (tag == mktag("cmap")) {
         if (t.size() >= 4) { unsigned n = be16(&t[2]); out.push_back({0, std::min<size_t>(t.size(), 4 + 8 * size_t(n)), "cmap-dir"});
-            for (unsigned i = 0; i < n && 4 + 8 * size_t(i) + 8 <= t.size(); ++i) { size_t so = be32(&t[4 + 8 * i + 4]); if (so < t.size()) out.push_back({so, std::min<size_t>(t.size(), so + 64), "cmap-sub-head"}); } }
+            for (unsigned i = 0; i < n && 4 + 8 * size_t(i) + 8 <= t.size(); ++i) {
+                size_t so = be32(&t[4 + 8 * i + 4]); if (so >= t.size()) continue;
+                out.push_back({so, std::min<size_t>(t.size(), so + 64), "cmap-sub-head"});
+                if (so + 16 <= t.size() && be16(&t[so]) == 4) { size_t sx2 = be16(&t[so + 6]); size_t idd = so + 14 + sx2 + 2 + sx2; if (idd + 2 * sx2 <= t.size()) { out.push_back({idd, idd + sx2, "cmap4-iddelta"}); out.push_back({idd + sx2, idd + 2 * sx2, "cmap4-idrangeoffset"}); out.push_back({so + 14, so + 14 + sx2, "cmap4-endcodes"}); } }
+                if (so + 16 <= t.size() && be16(&t[so]) == 12) { size_t ng = be32(&t[so + 12]); size_t g0 = so + 16; if (ng && g0 + 12 * ng <= t.size()) out.push_back({g0, g0 + 12 * std::min<size_t>(ng, 400), "cmap12-groups"}); }
+            } }
     }
     else if (tag == mktag("Feat")) out.push_back({0, std::min<size_t>(t.size(), 12 + 16 * 8), "feat-records"});
     else if (tag == mktag("Sill")) out.push_back({0, std::min<size_t>(t.size(), 12 + 8 * 8), "sill-records"});
